@@ -22,8 +22,8 @@ from . import cext
 from .core import Sym, some, sx
 
 PID = "C02"
-ALARM_S = 0.15         # a legal split/chunk takes microseconds; split(0) never returns (D4)
-ALARM_RETRY_S = 0.6
+ALARM_S = 0.2          # a legal split/chunk takes microseconds; split(0) never returns (D4)
+ALARM_RETRY_S = 1.0
 
 _T = {}
 
@@ -151,19 +151,20 @@ def _on_alarm(signum, frame):
 
 def guarded(f, seconds=ALARM_S):
     """('ok', value) | ('raise', class name) | ('timeout', None)"""
-    old = signal.signal(signal.SIGALRM, _on_alarm)
-    signal.setitimer(signal.ITIMER_REAL, seconds)
+    # CPU time of this process (ITIMER_VIRTUAL), not wall time: a loaded machine cannot make a terminating call "time out"
+    old = signal.signal(signal.SIGVTALRM, _on_alarm)
+    signal.setitimer(signal.ITIMER_VIRTUAL, seconds)
     try:
         try:
             return ("ok", f())
         finally:
-            signal.setitimer(signal.ITIMER_REAL, 0)
+            signal.setitimer(signal.ITIMER_VIRTUAL, 0)
     except Timeout:
         return ("timeout", None)
     except Exception as e:  # noqa: BLE001 -- the exception class is the observation
         return ("raise", type(e).__name__)
     finally:
-        signal.signal(signal.SIGALRM, old)
+        signal.signal(signal.SIGVTALRM, old)
 
 
 def call(f):
@@ -655,7 +656,7 @@ def run_case(case):
         out["restricted"] = True
         return out
     if res[0] == "timeout":
-        out["fails"].append(("non-termination", "call did not return within %.1fs (and again within %.1fs)" % (ALARM_S, ALARM_RETRY_S)))
+        out["fails"].append(("non-termination", "call did not return within %.1fs of CPU time (and again within %.1fs)" % (ALARM_S, ALARM_RETRY_S)))
         return out
     if not legal:
         if res[0] == "ok":
@@ -1536,7 +1537,8 @@ def main(R):
     t0 = time.time()
     results = run_all(cases, 12 if R.quick else 16)
     R.extra["impl_wall_s"] = round(time.time() - t0, 1)
-    R.exhaustive = not R.quick
+    R.exhaustive = False   # thorough enumerates batch shapes x operations x dims completely, but caps long argument lists (expand, view, unflatten)
+    R.extra["grid"] = "quick: stratified sample; thorough: all 341 batch shapes x 18 operations, every dim / permutation / split size, long argument lists capped at 40 per batch shape"
     # ---- spec + model
     spec_lines, model_lines, model_idx = [], [], []
     for i, (c, r) in enumerate(zip(cases, results)):
@@ -1618,16 +1620,24 @@ def impl_canon(impl):
 
 def modelled(case):
     """the part of the API Model/C02_ShapeOps transcribes"""
-    return case["op"] in MODELLED_OPS and not case.get("out")
+    if case["op"] == "masked_select" and case["names"] != "none":
+        # a mask over fewer dims than the batch makes the constructor adopt names from nested entries (C01's
+        # territory): only masks covering every batch dim are modelled on named trees
+        ms = list(case["args"]["mshape"])
+        while len(ms) > len(case["bs"]) and ms and ms[-1] == 1:
+            ms.pop()
+        if len(ms) < len(case["bs"]):
+            return False
+    return case["op"] in MODELLED_OPS and not (case.get("out") or "").startswith("lazy")
 
 
 MODELLED_OPS = {"permute", "transpose", "squeeze", "unsqueeze", "expand", "view", "reshape", "flatten", "unflatten", "repeat",
-                "repeat_interleave", "unbind", "split", "chunk", "gather", "stack", "cat"}
+                "repeat_interleave", "unbind", "split", "chunk", "gather", "stack", "cat", "masked_select"}
 
 
 def replay(body):
     _imports()
-    case = body["case"]
+    case = body.get("case", body)      # a replay file, or a bare case (corpus/C02/*.json)
     print("case:", json.dumps(case))
     print("recorded:", json.dumps(body.get("detail"), default=str)[:600])
     r = run_case(case)
